@@ -298,6 +298,46 @@ func c10Jobs(thorough bool) []c10Job {
 		}
 	}
 	// (c) escape decoder
+	// (e) declaration grid: every combination of arity, descriptor items (with argument counts that do and
+	// do not fit the arity), and bound rows of matching and non-matching length, followed by a fact and a rule
+	{
+		descr := []string{``, `doc("x")`, `arg(X, "d")`, `arg(Q, "d")`, `fundep([X], [Y])`, `fundep([], [X])`, `merge([Y], "m")`, `merge([X], "p")`, `deferred()`, `external()`,
+			`extensional()`, `reflects(/a)`, `reflects(1)`, `temporal()`, `private()`, `synthetic()`, `name("n")`, `desugared()`, `foo()`, `mode(1)`, `mode(X)`, `mode()`, `mode("x")`,
+			`mode("+")`, `mode("-")`, `mode("?")`, `mode("+", "+")`, `mode("+", "-")`, `mode("-", "+")`, `mode("-", "-")`, `mode("?", "+")`, `mode("+", "+", "-")`, `mode("+", "+", "+", "+")`}
+		bounds := []string{``, `bound []`, `bound [/number]`, `bound [/number, /string]`, `bound [/number, /string, /any]`, `bound [/number] bound [/string, /string]`, `bound [/number, /number] bound [/string]`,
+			`bound [fn:List(/number)]`, `bound [X]`, `bound [1]`, `bound [fn:foo(/number)]`, `inclusion [q(X)]`, `bound [/number] inclusion [q(X), q(Y)]`}
+		argLists := []string{"", "X", "X, Y", "X, Y, Z"}
+		factArgs := []string{"", "1", "1, \"s\"", "1, \"s\", /a"}
+		for ai := range argLists {
+			ai := ai
+			jobs = append(jobs, c10Job{fmt.Sprintf("declaration-grid arity %d", ai), func(probe func(kind, input string)) {
+				for i, d1 := range descr {
+					for j, d2 := range descr {
+						if j != 0 && j <= i {
+							continue
+						}
+						items := d1
+						if d2 != "" {
+							if items != "" {
+								items += ", "
+							}
+							items += d2
+						}
+						for _, b := range bounds {
+							for _, tail := range []string{"", "p(" + factArgs[ai] + ").\n", "p(" + factArgs[ai] + ").\nq(1).\nr(" + argLists[ai] + ") :- p(" + argLists[ai] + ").\n", "q(1).\np(" + argLists[ai] + ") :- q(X), q(Y), q(Z).\n"} {
+								src := "Decl p(" + argLists[ai] + ")"
+								if items != "" || (i+j)%2 == 0 {
+									src += " descr [" + items + "]"
+								}
+								src += " " + b + ".\n" + tail
+								probe("unit", src)
+							}
+						}
+					}
+				}
+			}})
+		}
+	}
 	jobs = append(jobs, c10Job{"escape decoder strings <=4 over 10 characters", func(probe func(kind, input string)) {
 		alpha := []string{"\\", "x", "u", "{", "}", "0", "f", "g", "\"", "\n"}
 		var rec func(cur string, n int)
@@ -457,6 +497,6 @@ func c10(r *rt.Run) {
 	})
 	r.Extra["states"] = r.Get("evaluations")
 	r.Finish("(a) every token string of length <= k over a 49-token alphabet (k=3 quick, 4 thorough) and k+1 over a 29-token alphabet, offered to Unit/Clause/Term/LiteralOrFormula/PredicateName/Atom/BaseTerm; " +
-		"(b) every single-token deletion/duplication/replacement, every truncation and byte substitution of 19 valid sources (examples/*.mg + 3 inline; the quick tier leaves out the 9 KB flow_checking.mg); (c) every string <= 4 over 10 characters through ast.Unescape; " +
+		"(b) every single-token deletion/duplication/replacement, every truncation and byte substitution of 19 valid sources (examples/*.mg + 3 inline; the quick tier leaves out the 9 KB flow_checking.mg); (c) every string <= 4 over 10 characters through ast.Unescape; (e) a declaration grid: arity 0-3 x every pair of 33 descriptor items x 13 bound/inclusion forms x 4 continuations; " +
 		"(d) line deletions/duplications/blankings/replacements, digit replacements and truncations of 6 fact files, plain/gzip/zstd; units that parse go on to AnalyzeAndCheckBounds and EvalProgram under a fact limit; non-trivial = inputs that parse as a unit")
 }
